@@ -1,0 +1,142 @@
+//! Verification hooks (cargo feature `verif-hooks`, off by default).
+//!
+//! A deterministic simulator can install, per thread,
+//! * an entropy source that replaces the OS randomness consulted by the
+//!   library (add/sub accumulator split, hash-map salts, tree-cache salt), and
+//! * a probe sink that observes interpreter and allocator events.
+//!
+//! Nothing here changes a decision of the library: when no entropy source is
+//! installed, `SimRng` falls back to `rand::rng()`, and probes are dropped when
+//! no sink is installed. Probes never draw entropy.
+
+use rand::RngCore;
+use std::cell::RefCell;
+
+/// The places where the library consults randomness.
+#[derive(Clone, Copy, Debug, PartialEq, Eq, Hash)]
+pub enum Site {
+    /// op_add slow path: which accumulator a heap operand is added to
+    AddSplit,
+    /// op_subtract slow path: which accumulator a heap operand is added to
+    SubSplit,
+    /// serde::RandomState::default(): the identity-hasher salt
+    HashSalt,
+    /// serde::TreeCache::new(): the SHA-1 salt
+    TreeCacheSalt,
+}
+
+/// Result of a value-preserving restore (garbage collection attempt)
+#[derive(Clone, Copy, Debug, PartialEq, Eq, Hash)]
+pub enum GcOutcome {
+    AbortedSmallSavings,
+    NoReplace,
+    ReplaceOldBytes,
+    AbortedPair,
+    AbortedLargeAtom,
+    ReplaceClone,
+}
+
+#[derive(Clone, Copy, Debug, PartialEq, Eq)]
+pub enum Probe {
+    /// one iteration of the run_program loop completed
+    Step {
+        cost: u64,
+        atoms: usize,
+        pairs: usize,
+        heap: usize,
+        op: u8,
+    },
+    /// a softfork guard was entered (after the allocator checkpoint was taken)
+    GuardEnter {
+        depth: usize,
+        atoms: usize,
+        pairs: usize,
+        heap: usize,
+        cost: u64,
+        expected_cost: u64,
+        exempt: bool,
+    },
+    /// a softfork guard completed (after the allocator was restored)
+    GuardExit {
+        depth: usize,
+        atoms: usize,
+        pairs: usize,
+        heap: usize,
+        cost: u64,
+    },
+    Gc {
+        outcome: GcOutcome,
+        saved_bytes: usize,
+    },
+}
+
+type EntropyFn = Box<dyn FnMut(Site) -> u64>;
+type ProbeFn = Box<dyn FnMut(Probe)>;
+
+thread_local! {
+    static ENTROPY: RefCell<Option<EntropyFn>> = const { RefCell::new(None) };
+    static PROBE: RefCell<Option<ProbeFn>> = const { RefCell::new(None) };
+}
+
+/// Install (or remove) the entropy source for this thread. Returns the
+/// previously installed one.
+pub fn set_entropy(f: Option<EntropyFn>) -> Option<EntropyFn> {
+    ENTROPY.with(|e| std::mem::replace(&mut *e.borrow_mut(), f))
+}
+
+/// Install (or remove) the probe sink for this thread. Returns the previously
+/// installed one.
+pub fn set_probe(f: Option<ProbeFn>) -> Option<ProbeFn> {
+    PROBE.with(|p| std::mem::replace(&mut *p.borrow_mut(), f))
+}
+
+/// The next 64 bits of simulated entropy for `site`, or None when no source is
+/// installed (the caller then uses the OS randomness, as shipped).
+pub fn entropy(site: Site) -> Option<u64> {
+    ENTROPY.with(|e| e.borrow_mut().as_mut().map(|f| f(site)))
+}
+
+#[inline]
+pub fn probe(p: Probe) {
+    PROBE.with(|s| {
+        if let Some(f) = s.borrow_mut().as_mut() {
+            f(p)
+        }
+    })
+}
+
+#[inline]
+pub fn probe_enabled() -> bool {
+    PROBE.with(|s| s.borrow().is_some())
+}
+
+/// A `rand::RngCore` that reads the installed entropy source and falls back to
+/// `rand::rng()` when there is none.
+pub struct SimRng(Site);
+
+impl SimRng {
+    pub fn new(site: Site) -> Self {
+        Self(site)
+    }
+}
+
+impl RngCore for SimRng {
+    fn next_u32(&mut self) -> u32 {
+        match entropy(self.0) {
+            Some(v) => v as u32,
+            None => rand::rng().next_u32(),
+        }
+    }
+    fn next_u64(&mut self) -> u64 {
+        match entropy(self.0) {
+            Some(v) => v,
+            None => rand::rng().next_u64(),
+        }
+    }
+    fn fill_bytes(&mut self, dst: &mut [u8]) {
+        for chunk in dst.chunks_mut(8) {
+            let v = self.next_u64().to_le_bytes();
+            chunk.copy_from_slice(&v[..chunk.len()]);
+        }
+    }
+}
